@@ -88,7 +88,16 @@ def build(spec):
     def args(a):
         if a is None:
             return None
-        return ParsedArguments(argnlist=[build(x) for x in a], arguments_spec_list=['{'] * len(a))
+        # the three ways an arguments object comes about: declared specifications, the pylatexenc-2 `argspec`
+        # string, and no declaration at all (custom / legacy arguments parsers: the specification list is then EMPTY
+        # while the argument list is not) -- the visitor goes by the argument list in each
+        al = [build(x) for x in a]
+        w = (p + len(a)) % 3
+        if w == 0:
+            return ParsedArguments(argnlist=al)
+        if w == 1:
+            return ParsedArguments(argnlist=al, argspec='{' * len(a))
+        return ParsedArguments(argnlist=al, arguments_spec_list=['{'] * len(a))
     kw = dict(parsing_state=None, pos=p, pos_end=e)
     if k == 'C':
         return N.LatexCharsNode(chars='x', **kw)
